@@ -658,7 +658,9 @@ def close(a, b):
 
 
 class Collector:
-    QSTEP = 24
+    QSTEP = 32                          # thorough tier: first case of a kind + every 32nd
+    QSTEP_QUICK = 48                    # round 8: quick tier - first case of a kind + every 48th
+    Q_THOROUGH_ONLY = ("KTRData",)      # round 8: ~5 CPU-s per Qops case; the dyadic execution already demands exact equality
 
     def __init__(self, chk):
         self.chk = chk
@@ -679,7 +681,10 @@ class Collector:
         seen = self.__dict__.setdefault("q_seen", {})
         seen[kname] = seen.get(kname, 0) + 1
         # Qops cross-check of the dyadic execution: the first case of every kind, then every QSTEP-th case of the kind (a Q case costs 3-4x a dyadic one)
-        if seen[kname] % self.QSTEP == 1:
+        quick = getattr(self.chk, "tier", "quick") == "quick"
+        if quick and kname in self.Q_THOROUGH_ONLY:
+            return cid
+        if seen[kname] % (self.QSTEP_QUICK if quick else self.QSTEP) == 1:
             self.cases.append(f"({cid + 1}%nat, inr {lit(LQ)})")
             self.meta.append(dict(meta, what=meta["what"] + " [Qops cross-check of the dyadic execution]"))
         return cid
@@ -690,6 +695,9 @@ class Collector:
         self.cases.append(f"({cid}%nat, inr {lit(LQ)})")
         self.meta.append(dict(meta, expect_fail=expect_fail))
         return cid
+
+
+CB_STEP = {"quick": 10 ** 6, "thorough": 4}
 
 
 def describe(name, entry, X, kind, rank, k, seed, opts):
@@ -757,12 +765,15 @@ def check_run(col, name, entry, X, kind, rank, k, seed, opts, rec, light=False):
             chk.finding(entry, inputs, f"{name}: last reported error (squared: {theirs!r}) is not the error of the returned decomposition "
                         f"(squared, recomputed: {mine!r})", "C06_last_report_is_error_of_returned", observed=theirs, expected=mine)
             nf += 1
-    # every callback pair
+    # every callback pair is judged by the Python predicate; Coq cases (round 8 thinning) for the pre-loop pair, the first in-loop pair, the
+    # last pair, every CB_STEP-th pair in between and every pair the predicate rejects
+    js_ = [j for j, (_, e) in enumerate(rec.cb) if e is not None]
+    keep_ = set(js_[:2] + js_[-1:] + [j for j in js_ if j % CB_STEP[chk.tier] == 0])
     for j, (it, e) in enumerate(rec.cb):
         if e is None:
             continue
         lit, mine = iterate_case(X, it, e)
-        if not light:
+        if not light and (j in keep_ or not close(mine, e * e)):
             col.add(lit, dict(inputs=inputs, what=f"callback #{j} value vs the decomposition handed to the callback", entry=entry),
                     expect_fail=not close(mine, e * e))
         chk.count(key=(name, X.shape, kind, k, "cb", j), nontrivial=True)
@@ -788,7 +799,7 @@ def error_calc_cases(col, tier, rng):
     import tensorly as tl
     chk = col.chk
     shapes = [(3, 4), (2, 3, 4), (3, 2, 2, 3)] if tier == "quick" else [(3, 4), (5, 2), (2, 3, 4), (3, 3, 3), (3, 2, 2, 3), (2, 2, 2, 2)]
-    reps = 2 if tier == "quick" else 6
+    reps = 2 if tier == "quick" else 4
     for shape in shapes:
         for rep_i in range(reps):
             rs = np.random.RandomState(rng.randrange(2 ** 31))
@@ -841,7 +852,8 @@ def error_calc_cases(col, tier, rng):
                             dict(inputs={"tensor": Rz, "card": sparsity}, what="sparsify_tensor", entry="tensorly.decomposition._cp.sparsify_tensor"))
                     chk.count(key=("sparsify", shape, sparsity, integer, msk is not None))
                 rep = float(out[0]) / float(out[2])
-                col.add(lambda P, X=X, R=R, w=w, fs=fs, S=S, msk=msk, rep=rep: f"(KCP {P.t(X)} {C.nat(R)} {P.opt_w(w)} {P.ts(fs)} {P.opt_t(S)} {P.opt_t(msk)} {P.num(rep)})",
+                if rep_i < (1 if tier == "quick" else 2):
+                  col.add(lambda P, X=X, R=R, w=w, fs=fs, S=S, msk=msk, rep=rep: f"(KCP {P.t(X)} {C.nat(R)} {P.opt_w(w)} {P.ts(fs)} {P.opt_t(S)} {P.opt_t(msk)} {P.num(rep)})",
                         dict(inputs=dict(inputs, sparsity=sparsity, mask=msk, branch="explicit"), what="error_calc", entry="tensorly.decomposition._cp.error_calc"))
                 col.add(lambda P, X=X, R=R, w=w, fs=fs, sparsity=sparsity, msk=msk, Mx=(M if with_m else None), rep=rep:
                         f"(KErrCalcFull {P.t(X)} {C.nat(R)} {P.opt_w(w)} {P.ts(fs)} {optnat(sparsity)} {P.opt_t(msk)} {P.opt_t(Mx)} {P.num(rep)})",
@@ -1641,6 +1653,7 @@ def run(chk):
     nruns = 0
     ls_seen = {}
     ex_seen = {}
+    fam_seen = {}
     for (name, entry, runner, opts, kind, shape, rank, seed, ks, X_pinned) in itertools.chain(corpus_runs(), gen_runs(chk.tier, rng)):
         light = False
         if X_pinned is not None:
@@ -1666,15 +1679,26 @@ def run(chk):
         if not np.any(X):
             continue
         o = concretise(opts, X, rank, rs)
+        # round 8 thinning (both tiers): the Coq cases of the FIRST prefix length are built for every other run family of a configuration (parity
+        # rotating with the seed); the last prefix of every family keeps its Coq cases and the Python predicates judge every prefix
+        fam_i = fam_seen.get("*", 0)           # one counter over all generated run families: half of them whatever the seed
+        if X_pinned is None:
+            fam_seen["*"] = fam_i + 1
+        skip_first = X_pinned is None and (fam_i + chk.seed) % 2 == 1
+        # thorough: the middle prefix ks[2] gets Coq cases for one run family in four (rotating with the seed), the longest always, the first
+        # for every other family (as in quick)
+        mid_prefix = (fam_i + chk.seed) % 4 == 0
         if name.startswith("cmtf"):
             A = rs.standard_normal((shape[0], rank)); V = rs.standard_normal((3, rank))
             o["_Y"] = A @ V.T + 0.1 * rs.standard_normal((shape[0], 3))
         recs = {}
         for k in ks:
-            # thorough: every prefix length runs and is judged by the Python predicates; Coq cases for the first, the third and the longest one
-            light_k = light or (chk.tier != "quick" and X_pinned is None and len(ks) > 3 and k not in (ks[0], ks[2], ks[-1])) \
+            # thorough: every prefix length runs and is judged by the Python predicates; Coq cases for the first and the longest one (+ the third
+            # one for every third run family)
+            light_k = light or (chk.tier != "quick" and X_pinned is None and len(ks) > 3 and k not in ((ks[0], ks[2], ks[-1]) if mid_prefix else (ks[0], ks[-1]))) \
                 or (chk.tier == "quick" and X_pinned is None and len(ks) >= 3 and k not in (ks[0], ks[-1])) \
-                or (chk.tier == "quick" and X_pinned is None and "_exact" in name and k != ks[-1])
+                or (chk.tier == "quick" and X_pinned is None and "_exact" in name and k != ks[-1]) \
+                or (skip_first and len(ks) >= 2 and k == ks[0] and k != ks[-1])
             st, rec = one_run(runner, X, rank, k, seed, o)
             nruns += 1
             chk.hist("algorithm", name); chk.hist("order", len(shape)); chk.hist("data", kind); chk.hist("outcome", st)
@@ -1774,7 +1798,7 @@ def run(chk):
     chk.cov["rule"] = ("every algorithm configuration of the table in harness/props/C06.py:configs x tensor order 2-4 x data kind (generic / exactly low-rank / "
                        "non-negative / integer, <= 60 entries) x prefix length n_iter_max = k (quick: 1..3, line search 7 and 9 with several seeds so that accepted "
                        "and rejected jumps occur at the last iteration; thorough: up to 13) + convergence-stopped runs (tol > 0, n_iter_max = 60); "
-                       "one Coq case per (run, last reported value) and per callback invocation; + direct error_calc calls in all four branches; "
+                       "Coq cases for (run, last reported value) and callback invocations (a sample since round 8: see the end of this text); + direct error_calc calls in all four branches; "
                        "+ direct _parafac2_reconstruction_error calls; + loop-skeleton trace projections (counts) and event-level traces of parafac / non_negative_parafac / "
                        "non_negative_parafac_hals (MTTKRP modes, cp_normalize, shortcut / explicit error computations, callbacks) against Model/Errors.v:obs_of_trace.  "
                        "Every option that feeds into or sits next to an error expression (l2_reg, sparsity, masks, fixed modes, sparsity_coefficients, core_sparsity_coefficient, exact, "
@@ -1783,9 +1807,11 @@ def run(chk):
                        "+ HOOI hypotheses (orthonormal factors, core = X x U^T) on every unmasked tucker / partial_tucker run; + recorded-value counts of the one-value-per-iteration loops; "
                        "+ parafac2 event-level traces; + class API (fit_transform: errors_ vs decomposition_); + tensor_ring_als_sampled with the exact error; "
                        "+ one parafac iteration on data for consecutive prefix runs (KSweep); + masked CP runs against error_calc_model on the original data; "
-                       "+ static ast tie (harness/props/C06_ast.py: 16 generated goals re-proved by coqc, tr_idx and tr_pieces optional) + round 7: one iteration on data of constrained_parafac / HALS (KSweepV) and of parafac with weights / normalisation / sparsity / the first line-search iteration (KIter), one sweep with in-sweep normalisation (KNormSweep), randomised gating counts (KRLoop), exact-fit configurations.  Quick: Coq cases for the first and last prefix length, Qops cross-check for the first and "
-                       "every 24th case of a kind, 16 cost-balanced shards.  Thorough: every shape, data kind rotating, all prefix lengths judged by the "
-                       "Python predicates, Coq cases for the first, third and longest prefix of each run family")
+                       "+ static ast tie (harness/props/C06_ast.py: 16 generated goals re-proved by coqc, tr_idx and tr_pieces optional) + round 7: one iteration on data of constrained_parafac / HALS (KSweepV) and of parafac with weights / normalisation / sparsity / the first line-search iteration (KIter), one sweep with in-sweep normalisation (KNormSweep), randomised gating counts (KRLoop), exact-fit configurations.  Every run, prefix length and callback pair is judged by the Python predicates in both tiers; Coq cases are a sample of them "
+                       "(round 8): the longest prefix of every run family, the first prefix of every other family (parity rotating with the seed), "
+                       "callback pairs #0, #1, the last one (thorough: + every 4th) and every pair the predicate rejects.  Quick: Qops cross-check for the first and "
+                       "every 48th case of a kind (KTRData: thorough only), 16 cost-balanced shards.  Thorough: every shape, data kind rotating, "
+                       "Qops cross-check first + every 32nd, the third prefix for one run family in four, 48 shards")
     for b in broken:
         chk.broken.append({"what": "correspondence corr:C06 shard not evaluated", "detail": b})
     for i in sorted(failing):
